@@ -11,14 +11,14 @@ Open Scope N_scope.
 (* ------------------------------------------------------------------ *)
 (* session.go:363 arpRequest (purge probe).
    ether := b[0:42]; EncodeEther; arp := ether.Payload() = b[14:cap]
-   PutUint16(arp[0:2],1); PutUint16(arp[2:4],0x0800); b[4]=6; b[5]=4  (sic: b, not arp)
+   PutUint16(arp[0:2],1); PutUint16(arp[2:4],0x0800); arp[4]=6; arp[5]=4  (since fix 9359b10)
    PutUint16(arp[6:8],1); copies; WriteTo(ether[:42]) *)
 Definition send_arp_request (c : cfg) (dst : bytes) (sender target : addr) (junk : bytes) : res (list bytes) :=
   let b := enc_ether junk 2054 (host_mac c) dst in
   let b := put16 14 1 b in
   let b := put16 16 2048 b in
-  let b := set_nth 4 6 b in
-  let b := set_nth 5 4 b in
+  let b := set_nth 18 6 b in
+  let b := set_nth 19 4 b in
   let b := put16 20 1 b in
   let b := cpy 22 6 (a_mac sender) b in
   let b := cpy 28 4 (a_ip sender) b in
